@@ -145,8 +145,17 @@ func initCerts() {
 	C.Aexp = mk("client A expired", &k4.PublicKey, C.caA, kA, false, client, nb.Add(-1000*time.Hour), nb.Add(-900*time.Hour))
 	k5 := gen()
 	C.Asrv = mk("client A serverAuth", &k5.PublicKey, C.caA, kA, false, []x509.ExtKeyUsage{x509.ExtKeyUsageServerAuth}, nb, na)
+	// chains of more than one certificate, as a proxy forwards them. Possession is
+	// proved for the FIRST certificate only; whatever follows is data supplied by
+	// the caller. spoofF / spoofA: an intruder's own CA-flagged self-signed
+	// certificate named like the issuer of a recognised certificate, followed by
+	// that (public) certificate.
+	kX := gen()
+	spoofF := mk("client F", &kX.PublicKey, nil, kX, true, nil, nb, na)
+	spoofA := mk("ca A", &kX.PublicKey, nil, kX, true, nil, nb, na)
 	C.byName = map[string][]*x509.Certificate{
 		"none": nil, "F": {C.F}, "FA": {C.FA}, "A1": {C.A1}, "B1": {C.B1}, "U": {C.U}, "Aexp": {C.Aexp}, "Asrv": {C.Asrv},
+		"A1+caA": {C.A1, C.caA}, "spoofF+F": {spoofF, C.F}, "spoofA+A1": {spoofA, C.A1},
 	}
 }
 
@@ -310,7 +319,8 @@ func enumRequests(cs cfgSpec, thorough bool) []reqSpec {
 	peers := []string{"192.0.2.9:555", "10.1.2.3:555", "10.77.0.9:555"}
 	tlss := []string{"none", "F", "FA", "A1", "B1", "U", "Aexp", "Asrv"}
 	type hx struct{ xff, hdr string }
-	hxs := []hx{{"", "none"}, {"198.51.100.7", "F"}, {"198.51.100.7", "A1"}, {"198.51.100.7", "none"}, {"", "F"}, {"198.51.100.7, 10.9.9.9", "B1"}, {"10.9.9.9", "FA"}, {"198.51.100.7", "nonpem"}}
+	hxs := []hx{{"", "none"}, {"198.51.100.7", "F"}, {"198.51.100.7", "A1"}, {"198.51.100.7", "none"}, {"", "F"}, {"198.51.100.7, 10.9.9.9", "B1"}, {"10.9.9.9", "FA"}, {"198.51.100.7", "nonpem"},
+		{"198.51.100.7", "A1+caA"}, {"198.51.100.7", "spoofF+F"}, {"198.51.100.7", "spoofA+A1"}}
 	if thorough {
 		peers = append(peers, "@")
 		hxs = append(hxs, hx{"garbage", "A1"}, hx{"198.51.100.7", "U"}, hx{"203.0.113.5, 198.51.100.7", "Aexp"}, hx{"", "A1"})
@@ -369,7 +379,14 @@ func (r reqSpec) build() *http.Request {
 	case "nonpem":
 		req.Header.Set("Ssl-Client-Cert", url.PathEscape("-----BEGIN PUBLIC KEY-----\nZm9vYmFy\n-----END PUBLIC KEY-----\n"))
 	default:
-		req.Header.Set("Ssl-Client-Cert", url.PathEscape(pemOf(C.byName[r.Hdr][0])))
+		var chain string
+		for i, c := range C.byName[r.Hdr] {
+			if i > 0 && !strings.Contains(r.Hdr, "+") {
+				break
+			}
+			chain += pemOf(c)
+		}
+		req.Header.Set("Ssl-Client-Cert", url.PathEscape(chain))
 	}
 	return req
 }
